@@ -252,7 +252,7 @@ def run(prop, argv=None) -> int:
         """greedy shrink keeping pred(agree, ok, excl) true; prefers candidates free of known situations"""
         cur = case
         for _ in range(40):
-            cands = list(prop.shrink(cur))[:300]
+            cands = list(prop.shrink(cur))[:120]
             if not cands:
                 break
             ev = [e for e in evaluate(cands) if pred(e[2], e[3], e[4])]
